@@ -183,6 +183,8 @@ pub fn stress_shapes(ctx: &mut Ctx, reps: u64) {
         ctx.count("staggered-service-histories");
         run_plain(ctx, &gen_stale_instants(&mut rng));
         ctx.count("stale-instant-histories");
+        run_plain(ctx, &gen_answered_between_polls(&mut rng));
+        ctx.count("answered-between-polls-histories");
         ctx.count_n("stress-histories", 10);
     }
     for _ in 0..(reps / 16).max(2) {
@@ -235,6 +237,37 @@ pub fn gen_staggered_service(rng: &mut crate::prng::Rng) -> History {
         ops.push(Op::Poll(*rng.pick(&[PollAt::After(1), PollAt::After(50), PollAt::After(200), PollAt::After(777), PollAt::Now, PollAt::AtWait])));
     }
     for _ in 0..(n as usize * 4) {
+        ops.push(Op::Poll(PollAt::AtWait));
+    }
+    History { tcp: false, remote0: None, remote_addr: None, ops }
+}
+
+/// (12) answered between two polls of one instant: several transactions are due at the same
+///      instant, one poll serves one of them, responses arrive (for the one just served, for another
+///      one, for none) and the agent is polled again with the identical instant: every transaction
+///      still due is served at that instant, the answered ones are gone
+pub fn gen_answered_between_polls(rng: &mut crate::prng::Rng) -> History {
+    let n = 2 + rng.below(4) as u8;
+    let mut ops: Vec<Op> = (0..n).map(|i| req(i, i % NCORE as u8, Sealing::None, 30 + i as u16)).collect();
+    ops.push(Op::Poll(PollAt::AtWait)); // WaitUntil(t)
+    let rounds = 1 + rng.usize(3);
+    for _ in 0..rounds {
+        ops.push(Op::Poll(PollAt::AtWait)); // at t: one of them is served
+        for i in 0..n {
+            match rng.below(4) {
+                0 => {
+                    ops.push(Op::Response { tid: i, from: i % NCORE as u8, error: false, seal: RespSeal::Unsigned, fp: rng.chance(1, 2) });
+                    ops.push(Op::Poll(PollAt::Now));
+                }
+                1 => ops.push(Op::Response { tid: i, from: i % NCORE as u8, error: rng.chance(1, 3), seal: RespSeal::Unsigned, fp: false }),
+                _ => {}
+            }
+        }
+        for _ in 0..(n as usize + 1) {
+            ops.push(Op::Poll(PollAt::Now));
+        }
+    }
+    for _ in 0..(n as usize * 8) {
         ops.push(Op::Poll(PollAt::AtWait));
     }
     History { tcp: false, remote0: None, remote_addr: None, ops }
@@ -661,6 +694,7 @@ pub fn run_c20(ctx: &mut Ctx) {
             0 => gen_many_peers(&mut rng),
             1 | 2 => gen_extended_schedule(&mut rng),
             3 | 4 => gen_stale_instants(&mut rng),
+            5 => gen_answered_between_polls(&mut rng),
             _ => gen_staggered_service(&mut rng),
         };
         check_c20_history(ctx, &h, 1 + rng.below(1_000_000), i % 32 == 0);
